@@ -55,6 +55,17 @@ def parseAct (a : String) : Option Act :=
   | 'r' :: r => (String.ofList r).toNat?.map Act.fail
   | 'p' :: r => (String.ofList r).toNat?.map Act.panic
   | 'f' :: r => (parseFlag (String.ofList r)).map Act.finish
+  | 'E' :: r =>
+    match (String.ofList r).splitOn ":" with
+    | [p, src] =>
+      match parseFlag p with
+      | some prop =>
+        match src.toList with
+        | 'c' :: vs => (parseIntList (String.ofList vs)).map fun l => Act.emitEcho (.const l) prop
+        | 'i' :: n => (String.ofList n).toInt?.map fun k => Act.emitEcho (.input k) prop
+        | _ => none
+      | none => none
+    | _ => none
   | 'e' :: r =>
     match (String.ofList r).splitOn ":" with
     | [p, src, md] =>
